@@ -112,6 +112,11 @@ CLAIMS = {
    "consecutive passes each cover the target exactly once, next pass started >= interval after the previous one was drained (one-sided), passes keep coming, the stream ends after cancel, no crash / end of stream / busy loop on a failed pass. "
    "Command level: sx arp --live on the virtual wire until SIGINT - per-target counts floor/ceil, first probe of pass k not before start+(k-1)*interval, each answering host printed once.",
    "whether passes resume after a failed one is a don't-care; command-level coverage judged by counts (pipeline may reorder)", "C19"),
+ "C12": _c("E2-cmdwire",
+   "fault enumeration over cancel points: synchronous cancellation at the k-th probe/record/error of the application engine, and the real SIGINT after every k-th frame of packet commands; oracle = returns, streams end, no crash, complete lines",
+   "Fault enumeration. Application engine as the commands assemble it, with generated outcomes (incl. probes in flight at the cancel that then fail or report), 1..1000 workers, up to 3000 targets, slow consumer: the parent context is cancelled at an exact event (before start, k-th probe start, k-th record written, k-th error logged, inside an exit delay of 30 ms..10 min). "
+   "Packet commands on the virtual wire: for one generated scenario SIGINT after EVERY frame k = 0..total and inside a 10-minute exit delay. Socks command against stalling servers. Oracle: the call returns within 30 s (goroutine dump otherwise), result stream closed, nothing written after the return (in-stream marker), complete JSON lines, process alive under -race.",
+   "k is enumerated completely per scenario, scenarios are sampled; leaked goroutines that do not block the call are not judged", "C12"),
 }
 
 # properties not (yet) claimed
